@@ -260,6 +260,17 @@ pub fn judge_live(c: &crate::props::fid::FCase) -> Verdict {
                 }
                 checked_regs += 1;
             }
+            Some(K_ODDSP) => {
+                if ctx.gpr[4] != o.planned_sp[&tid] {
+                    bad!("reg:rsp", "thread {tid} spinning with an odd stack pointer: rsp {:#x}, the thread holds {:#x}", ctx.gpr[4], o.planned_sp[&tid]);
+                }
+                if ctx.rip < o.syms["oddsp_loop"] || ctx.rip >= o.syms["oddsp_loop"] + 16 {
+                    bad!("reg:rip", "thread {tid}: rip {:#x} outside its loop", ctx.rip);
+                }
+                classes.push("odd-sp-thread-listed".to_string());
+                checked_regs += 1;
+                continue;
+            }
             _ => continue,
         }
         // float state of parked / spinning threads
@@ -461,8 +472,13 @@ pub fn run(ctx: &mut LaneCtx) {
         SubSpec {
             name: "live-threads",
             cases: (960, 30_000),
-            rule: "generated targets (main + 1..63 threads: parked with sentinel registers, spinners with a register/stack/app-memory counter triple, sleepers, null-SP helpers, exiters cued at the threads-enumerated hook) dumped by the real writer; oracle = set of listed ids, per-register comparison with the sentinels, counter triple within one step; non-trivial = >=2 threads and a spinner, null-SP thread or vanished thread; distinct = hash of case",
-            strategy: crate::props::fid::case_strategy(if ctx.tier == Tier::Quick { 20 } else { 64 }, 1).boxed(),
+            rule: "generated targets (main + 1..63 threads: parked with sentinel registers, spinners with a register/stack/app-memory counter triple, sleepers, null-SP helpers, a spinner whose stack pointer holds an odd value such as all ones, exiters cued at the threads-enumerated hook) dumped by the real writer; oracle = set of listed ids, per-register comparison with the sentinels, counter triple within one step; non-trivial = >=2 threads and a spinner, null-SP thread or vanished thread; distinct = hash of case",
+            strategy: (crate::props::fid::case_strategy(if ctx.tier == Tier::Quick { 20 } else { 64 }, 1), proptest::option::weighted(0.3, any::<u8>()))
+                .prop_map(|(mut c, odd)| {
+                    c.odd_sp = odd;
+                    c
+                })
+                .boxed(),
             max_shrink_iters: 150,
             log_current: true,
         },
